@@ -37,6 +37,10 @@ CHECKS = {
    technique=TECH + "configuration swarm stratified over every PeriodType value for every constructor / MA kind / indicator field (incl. float specials, every Source), then every accepted instance consumes a 600+ tick fault feed under catch_unwind; seeded garbage through MA::from_str / Source::from_str / set (partial fit: constructor totality is a stateless clause, decided by stratified seeded sampling of the configuration space)",
    text="Complete over the 256 length values per single-length constructor and per MA kind (measured in evidence), boundary grid + seeded pairs (quick) or all 65 536 pairs (thorough) for two-parameter methods, one-field-at-a-time boundary sweep plus seeded multi-field mutations for the 36 indicator configurations. The 'never panics on a valid stream' clause is sampled (600-tick fault feeds).",
    note="Strict build profile (debug assertions + overflow checks, as in the dev profile of the baseline). Documented minima from the doc comments. Known findings: the PeriodType::MAX family and NaN into SMM (known_findings.json)."),
+ "C11": dict(level="exploration", design="§4 C11",
+   technique=TECH + "shape monitor on every step of seeded runs; static replica vs three dyn replicas (tick-wise, config over, chunked instance over) compared bitwise; set() through static and dyn interface compared against the expected configuration tree read through the serde seam (partial fit: set() is a stateless clause, decided by seeded sampling)",
+   text="Every indicator, default and mutated valid configurations, every public parameter name (enumerated from the serialized configuration) with parsable and unparsable texts, unknown and near-miss names; shape/name/dyn equivalence at every step of fault-feed candle streams.",
+   note="Public parameter names = pub fields of the configuration struct = fields of its serialized form (Example: `price`). Expected parse results are produced by the harness (decimal numbers, source names, 'kind-len')."),
 }
 NA = {
  "C16": "Action algebra is a total, stateless algebra over a finite domain: no history, state, fault, replica or schedule for a simulator to drive; the fitting technique (exhaustive enumeration) is model checking, which this task excludes (DESIGN.md §5).",
